@@ -38,6 +38,34 @@ def run(ctx):
             org = [None, 0, 0x100, 0x7c00, 0xc200][i % 5]
             R.add(progs.complete(c, org=org, bits=bits))
             nprog += 1
+    # (a') forward-reference patterns: a label is mentioned by a branch before its definition (pass 1 then knows a provisional
+    # value for it) and used again, as branch target / immediate / data, still before or after the definition
+    L = lambda nm: {"t": "l", "nm": nm, "add": 0}
+    def brs(mn, nm):
+        return {"k": "br", "mn": mn, "tgt": {"t": "l", "nm": nm, "add": 0}}
+    def movl(w, n, nm):
+        return {"k": "ins", "mn": "MOV", "ops": [{"t": "r", "w": w, "n": n}, L(nm)]}
+    npat = 0
+    for bits in (16, 32):
+        w = 16 if bits == 16 else 32
+        for org in (None, 0x7c00, 0xc200):
+            for first in ("JE", "JMP", "CALL", "JNC"):
+                for second in ("movl", "JMP", "JE", "CALL", "dw_after", "equalias"):
+                    for gap in (0, 3, 130):
+                        st = ([{"k": "org", "v": org}] if org is not None else []) + ([{"k": "bits", "v": 32}] if bits == 32 else [])
+                        st += [{"k": "ins", "mn": "NOP", "ops": []}, brs(first, "fin")]
+                        if gap:
+                            st.append({"k": "resb", "e": {"o": "n", "v": gap}})
+                        if second == "movl":
+                            st.append(movl(w, 3, "fin"))
+                        elif second == "equalias":
+                            st += [{"k": "equ", "nm": "FINQ", "e": {"o": "id", "nm": "fin"}}, movl(w, 6, "FINQ"), brs("JMP", "FINQ")]
+                        elif second != "dw_after":
+                            st.append(brs(second, "fin"))
+                        st += [{"k": "ins", "mn": "HLT", "ops": []}, {"k": "label", "nm": "fin"}, {"k": "ins", "mn": "HLT", "ops": []},
+                               {"k": "data", "mn": "DW", "items": [{"t": "e", "e": {"o": "id", "nm": "fin"}}]}, movl(w, 0, "fin"), brs("JMP", "fin"), {"k": "label", "nm": "end2"}]
+                        R.add(st)
+                        npat += 1
     # (b) every statement kind followed by a label whose value is embedded
     cells = []
     for p in PARTS:
@@ -73,7 +101,7 @@ def run(ctx):
         "states": mcst["distinct"], "transitions": mcst["generated"],
         "model_checking": "MC_Asm: all programs of length <= %d over a 15-statement alphabet (labels, JMP/JE/JNZ/CALL to labels, DW/MOV of labels, NOP, RESB 1/126, ALIGNB 4, ORG, BITS 32); invariants Inv_C03 Inv_C04 Inv_C05 Inv_C17 hold" % (4 if quick else 5),
         "traces_validated_against_impl": len(R.cases), "trace_events": ver["events"],
-        "random_programs": nprog, "sweep_cells": len(cells) * 2,
+        "random_programs": nprog, "forward_reference_patterns": npat, "sweep_cells": len(cells) * 2,
         "programs_without_diagnostic": clean, "programs_fully_accepted_by_reference": clean - len([i for i in rejected if not is_diagnosed(R.end(i))]),
         "evaluations": len(R.cases), "distinct_nontrivial": clean,
         "rule": "(a) seeded random programs from spec/Gen_Prog.tla (TLC -simulate): instructions of every size class, DB/DW/DD, RESB, ALIGNB, EQU, labels referenced before and after definition, ORG in {none,0,0x100,0x7c00,0xc200}, both modes; "
